@@ -126,6 +126,28 @@ def cmd_tests(name, workers="8"):
     return not broken
 
 
+def cmd_tests_clean(workers="8"):
+    """The pinned baseline suite on /repo HEAD itself (all fixes, no seeded change), guard variable unset."""
+    base = json.load(open("/root/.vp/BASELINE.json"))
+    stable = set(base["stable_pass"])
+    with Worktree("cleanhead") as t:
+        xml = f"/dev/shm/junit_clean_{os.getpid()}.xml"
+        env = dict(os.environ, OMP_NUM_THREADS="1", OPENBLAS_NUM_THREADS="1", PYTHONDONTWRITEBYTECODE="1")
+        env.pop("RENORMALIZER_VERIF", None)
+        sh([PY, "-m", "pytest", "-q", "-p", "no:cacheprovider", "--timeout=900", "--continue-on-collection-errors", "-n", workers, f"--junitxml={xml}"], cwd=t, env=env, timeout=10800)
+        passed = set()
+        for tc in ET.parse(xml).getroot().iter("testcase"):
+            tid = f"{tc.get('classname')}::{tc.get('name')}"
+            if not any(ch.tag in ("failure", "error", "skipped") for ch in tc):
+                passed.add(tid)
+        os.remove(xml)
+    head = sh(["git", "-C", "/repo", "rev-parse", "--short", "HEAD"]).stdout.strip()
+    broken = sorted(stable - passed)
+    print(f"/repo HEAD {head}: stable_pass {len(stable)}, passing {len(stable & passed)}, broken {broken}")
+    json.dump({"head": head, "stable_pass": len(stable), "passing": len(stable & passed), "broken": broken}, open(os.path.join(VERIF, "seeded", "baseline_on_head.json"), "w"), indent=1)
+    return not broken
+
+
 def cmd_check(name, pids):
     m = load_meta(name)
     patch = os.path.join(SEEDED, name, "patch.diff")
@@ -169,3 +191,5 @@ if __name__ == "__main__":
         cmd_check(sys.argv[2], sys.argv[3:])
     elif c == "table":
         cmd_table()
+    elif c == "tests-clean":
+        sys.exit(0 if cmd_tests_clean(*(sys.argv[2:3])) else 1)
